@@ -16,7 +16,9 @@ def gen_affine(rnd, stratum=None):
     split without halo (subsampling); S4 multi-level split with halo;
     S5 coefficient 3/5/6 looped over the input rank."""
     if stratum is None:
-        stratum = rnd.choice(["S1", "S1", "S2", "S2", "S3", "S6", "S8", "S9", "S10"])
+        stratum = rnd.choice(["S1", "S1", "S2", "S2", "S3", "S6", "S8", "S9", "S10", "S11"])
+    if stratum == "S11":
+        return gen_affine3(rnd)
     if stratum == "S9":
         return gen_affine2(rnd)
     if stratum == "S10":
@@ -276,3 +278,45 @@ def gen_affine_out(rnd):
     spec = Spec(decl, [e], partitioning=({"O": parts} if parts else None), loop_order={"O": lo},
                 tags=tags)
     return spec, ext, {"stratum": "S10", "tags": tags, "dims": []}
+
+
+def gen_affine3(rnd):
+    """Stratum S11: THREE index variables in one access, with up to two backward-reaching
+    (negative) terms:  O[q] = I[a*q + b*s + c*t] * F[s] * G[t]  (or F[s, t]); optionally the
+    output rank is split with the input rank following it (its halo then has a pre- and a
+    post-part built from several terms)."""
+    a = rnd.choice([1, 1, 2])
+    b = rnd.choice([1, -1, -1, 2])
+    c = rnd.choice([1, -1, -1, 2])
+    if rnd.random() < 0.4:
+        b, c = rnd.choice([(-1, -1), (-1, -2), (-2, -1)])
+    Q, S, T = rnd.randint(3, 9), rnd.randint(1, 4), rnd.randint(1, 3)
+    if b < 0 and c < 0:
+        S, T = max(S, 2), max(T, 2)
+    hi = a * (Q - 1) + max(0, b * (S - 1)) + max(0, c * (T - 1))
+    ext = {"Q": Q, "S": S, "T": T, "W": hi + 1}
+    tags = ["S11", "three-index-variables"]
+    if b < 0 and c < 0:
+        tags.append("two-backward-terms")
+    idx = [(a, "q"), (b, "s"), (c, "t")]
+    if rnd.random() < 0.4:
+        idx = [idx[0]] + rnd.sample(idx[1:], 2)
+    if rnd.random() < 0.5:
+        decl = {"I": ["W"], "F": ["S"], "G": ["T"], "O": ["Q"]}
+        facs = [Acc("I", [idx]), Acc("F", [[(1, "s")]]), Acc("G", [[(1, "t")]])]
+    else:
+        decl = {"I": ["W"], "F": ["S", "T"], "O": ["Q"]}
+        facs = [Acc("I", [idx]), Acc("F", [[(1, "s")], [(1, "t")]])]
+    rnd.shuffle(facs)
+    e = Einsum(Acc("O", [[(1, "q")]]), [Term("times", facs)])
+    parts = None
+    if rnd.random() < 0.6:
+        parts = {"Q": ["uniform_shape(%d)" % rnd.randint(2, 5)], "W": ["follow(Q)"]}
+        groups = [["Q1", "Q0"], ["S"], ["T"]]
+        tags += ["partitioned", "halo"]
+    else:
+        groups = [["Q"], ["S"], ["T"]]
+    lo = interleave(rnd, groups, True)
+    spec = Spec(decl, [e], partitioning=({"O": parts} if parts else None), loop_order={"O": lo},
+                tags=tags)
+    return spec, ext, {"stratum": "S11", "tags": tags, "dims": []}
